@@ -11,9 +11,10 @@ MATCHERS = {}
 def regen_leaves():
     """CmGen/Leaves.lean: the numeric functions and constants of the source as they read now (the `source_*`
     theorems of CmProps/C04tie.lean identify them with the model)"""
-    from translate import leaves, optimiser
+    from translate import leaves, optimiser, api
     leaves.generate()
     optimiser.generate()
+    api.generate()              # CmGen/Api.lean: make_readable as it reads now (CmProps/C04cap.lean states the property about that image)
 DEFAULT = [0.8, 1.0, 1.2, 1.4, 1.6, 1.8, 2.0, 2.1, 2.2, 2.3, 2.4, 2.5, 2.7, 3.0, 3.5, 4.0, 5.0]
 STEP = [0.8, 1.0, 1.2, 1.4, 1.6, 1.8, 2.0, 2.2, 2.5, 2.8, 3.0]
 RELAXED = [0.8, 1.0, 1.2, 1.4, 1.6, 1.8, 2.0, 2.5, 3.0, 3.5, 4.0, 5.0, 6.0, 7.0, 8.0, 9.0, 10.0, 12.0, 15.0]
